@@ -932,7 +932,7 @@ func min64(a, b int64) int64 {
 // runChallenger: nbtns.NameChallenger.ChallengeOwnership against a harness node on port 137 that answers
 // with the right id, a wrong id first, a name error, or not at all.
 func runChallenger(w *rt.World, res *hx.Result) *hx.Violation {
-	mode := hx.G(6) // 0 owner answers, 1 wrong id first then right, 2 name error, 3 silent, 4 other owner, 5 another host answers "released" with the right id before the owner confirms
+	mode := hx.G(7) // 6: the owner ignores the first challenge and confirms the retransmission; 0 owner answers, 1 wrong id first then right, 2 name error, 3 silent, 4 other owner, 5 another host answers "released" with the right id before the owner confirms
 	if hx.G(2) == 0 {
 		w.Quiet = true // half of the runs: a faultless network, where the exact result is required
 	}
@@ -941,6 +941,7 @@ func runChallenger(w *rt.World, res *hx.Result) *hx.Violation {
 	ch := nbtns.NewNameChallenger(table, nbtns.NewPacketHandler(table))
 	owner := net.IP{10, 0, 3, 7}
 	stop := false
+	seenChallenges := 0
 	node := rt.GoHarness("node", "10.0.3.7", func() {
 		c, err := simnet.ListenUDP("udp4", &net.UDPAddr{Port: 137})
 		bound.Set()
@@ -968,7 +969,12 @@ func runChallenger(w *rt.World, res *hx.Result) *hx.Violation {
 				b, _ := p.Marshal()
 				return b
 			}
+			seenChallenges++
 			switch mode {
+			case 6:
+				if seenChallenges >= 2 {
+					c.WriteToUDP(mk(id, 0, owner), src) // confirms, with the id this datagram carries
+				}
 			case 5:
 				// the forged negative answer leaves from another host's socket; the challenge socket is connected
 				// to the owner, so it belongs to no exchange of the challenger
@@ -1029,10 +1035,10 @@ func runChallenger(w *rt.World, res *hx.Result) *hx.Violation {
 		}
 		return nil
 	}
-	want := mode == 0 || mode == 1 || mode == 5
+	want := mode == 0 || mode == 1 || mode == 5 || mode == 6
 	if got != want {
 		return &hx.Violation{Class: "client_mismatch", Key: "challenger_result",
-			Msg: fmt.Sprintf("ChallengeOwnership returned %v, expected %v (node behaviour %d: 0 confirms, 1 wrong id then confirms, 2 name error, 3 silent, 4 other owner, 5 a third host says released with the right id, then the owner confirms)", got, want, mode)}
+			Msg: fmt.Sprintf("ChallengeOwnership returned %v, expected %v (node behaviour %d: 0 confirms, 6 confirms the second challenge only, 1 wrong id then confirms, 2 name error, 3 silent, 4 other owner, 5 a third host says released with the right id, then the owner confirms)", got, want, mode)}
 	}
 	return nil
 }
